@@ -4,10 +4,10 @@ CONSTANTS
   Tags = {0, 1}
   Ints <- MCInts
   Strs <- MCStrs
-  FInts = {0, 1, 2}
-  FStrs <- MCFStrs
-  FBoth <- MCFBoth
-  Res <- MCRes
+  FInts = {0, 1}
+  FStrs <- MCFStrsEmptyA
+  FBoth <- MCFBothSmall
+  Res <- MCResTwo
   ReSet <- MCReSet
   Kinds = {"plain", "raw"}
   ValKinds = {"M", "S", "B", "E"}
